@@ -73,6 +73,13 @@ def cases(ctx):
                 yield ("len", n, cls, k, "code")
     for v in range(256):
         yield ("crc", 1, "all", v)
+    # security codes are raw bytes: every byte value at the first, a middle and the last position, and at both ends at once
+    # (whitespace, NUL, quote and high bytes are nothing special); a few other code lengths
+    for v in range(256):
+        for pos in ("first", "mid", "last", "both"):
+            yield ("codebyte", pos, v)
+    for ln in (0, 1, 7, 9, 16, 64):
+        yield ("codelen", ln)
     for L in ((2, 14, 26) if ctx.quick else (2, 3, 14, 26, 50, 100, 253)):
         for v in range(256):
             yield ("crc", L, "lo", v)
@@ -162,6 +169,17 @@ def run_case(ctx, case):
             key = AB.code_key(code)
             enc = ConfigSecurityCodeEncryptor(code)
         return positive(o, enc, key, p, p, p, "%s len=%d %s" % (variant, n, cls))
+    if kind in ("codebyte", "codelen"):
+        if kind == "codebyte":
+            _, pos, v = case
+            code = bytearray(b"\x31\x32\x33\x34\x35\x36\x37\x38")
+            for i in {"first": (0,), "mid": (3,), "last": (7,), "both": (0, 7)}[pos]:
+                code[i] = v
+            code = bytes(code)
+        else:
+            code = bytes((i * 37 + 1) & 0xFF for i in range(case[1]))
+        p = content(ctx, 26, "seed")
+        return positive(o, ConfigSecurityCodeEncryptor(code), AB.code_key(code), p, p, p, "security code %s" % code.hex())
     if kind == "crc":
         _, L, which, v = case
         if L == 1:
